@@ -99,6 +99,10 @@ def run(ctx):
             vs.append({"sysmode": "td", "unique": True})
         if idx % 3 == 1:
             vs.append({"sysmode": "td", "unique": True, "rot": "haar"})      # non-diagonal coupling with degeneracy reduction
+        if case["K"] != eng.KNONE and idx % 3 == 2:
+            # memory given as tcut = K * dt with a decimal dt (the quotient tcut / dt is not an integer in floating point):
+            # both methods must still keep exactly K steps of memory
+            vs.append({"sysmode": "td", "memory": "tcut", "dt": (0.1, 0.2, 0.3, 0.01, 0.7)[idx % 5]})
         for v in vs:
             jobs.append({"case": case, "variant": v, "seed": ctx.seed})
     results = core.pmap(eng.run_variant, jobs, chunksize=4)
